@@ -170,6 +170,9 @@ fn files(tier: Tier) -> Vec<(String, Vec<u8>)> {
             out.push((format!("wide-output:{}:pad{}", cn, pad), model::words_to_bytes(&w)));
         }
     }
+    for (n, w) in crate::universe::deep_nesting_words() {
+        out.push((n, model::words_to_bytes(&w)));
+    }
     // id-relation sequences: values typed by values, rings of ids, declarations after use, followed by a consumer
     for (n, v) in crate::universe::id_relation_sequences(tier.pick(3, 4)) {
         let mut w = model::header(0x0001_0300, 0, 20);
@@ -264,7 +267,15 @@ pub fn run(tier: Tier) -> Run {
             // the tool must TERMINATE: it gets a wall-clock horizon (far beyond what the largest file needs), after which it
             // is killed and the file is reported. stdout / stderr go to files so that a full pipe can never block it.
             let (so, se) = (dir.join(format!("{}.out", idx)), dir.join(format!("{}.err", idx)));
-            let child = (|| -> std::io::Result<std::process::Child> { Command::new(&bin).arg(&path).stdout(std::fs::File::create(&so)?).stderr(std::fs::File::create(&se)?).spawn() })();
+            // the deep-nesting files are run under a 256 KiB stack (a thread of a host application has less than a main thread)
+            let small_stack = what.starts_with("nested-spec-constant-op");
+            let child = (|| -> std::io::Result<std::process::Child> {
+                if small_stack {
+                    Command::new("sh").arg("-c").arg("ulimit -s 256; exec \"$0\" \"$1\"").arg(&bin).arg(&path).stdout(std::fs::File::create(&so)?).stderr(std::fs::File::create(&se)?).spawn()
+                } else {
+                    Command::new(&bin).arg(&path).stdout(std::fs::File::create(&so)?).stderr(std::fs::File::create(&se)?).spawn()
+                }
+            })();
             let mut child = match child {
                 Ok(c) => c,
                 Err(e) => return (Some(viol("C20:spawn", format!("cannot run rspirv-dis: {}", e), rep)), "spawn-failed"),
